@@ -17,6 +17,20 @@ fn main() {
         std::process::exit(2);
     }
     let prop = args[1].clone();
+    if prop == "corpus" {
+        // rustun-verif corpus <target> <dir>
+        let seed = std::env::var("VERIF_SEED").ok().and_then(|s| s.parse().ok()).unwrap_or(1u64);
+        match rustun_verif::corpus::write(&args[2], std::path::Path::new(args.get(3).map(|s| s.as_str()).unwrap_or("corpus")), seed) {
+            Ok(n) => {
+                println!("wrote {} seed files", n);
+                std::process::exit(0);
+            }
+            Err(e) => {
+                eprintln!("INCONCLUSIVE: {}", e);
+                std::process::exit(2);
+            }
+        }
+    }
     if args[2] == "--replay" {
         if args.len() < 4 {
             usage();
